@@ -78,7 +78,7 @@ fn trace(mon: &mut Monitor, args: &Args) {
     let reg = entries();
     w.u(MAGIC);
     w.u(reg.len() as u64);
-    let per_entry = mon.n(150, 1500);
+    let per_entry = mon.n(240, 2400);
     let nprog = mon.n(6_000, 150_000);
     let base = mix(mon.seed, 0xc07);
     let Some(mut c) = mon.begin_unsharded("trace", &format!("recorded in {}", mon.config)) else { return };
@@ -87,7 +87,7 @@ fn trace(mon: &mut Monitor, args: &Args) {
         let id = eid(e);
         for i in 0..per_entry {
             let sd = mix(mix(base, id), i);
-            let mut s = Src::new(sd, Mode::Ordinary);
+            let mut s = Src::for_seed(sd);
             let o = catch_unwind(AssertUnwindSafe(|| (e.call)(&mut s))).map_err(|_| ());
             // conditioning probe: the same call on inputs moved by up to 64 ulp (large enough that the response is
             // not hidden by the quantisation of intermediate results, small enough to stay linear)
@@ -96,7 +96,7 @@ fn trace(mon: &mut Monitor, args: &Args) {
             if let Ok(o0) = &o {
                 noise = vec![0.0; o0.words.len()];
                 for k in 0..K_PERTURB {
-                    let mut sp = Src::new(sd, Mode::Ordinary);
+                    let mut sp = Src::for_seed(sd);
                     sp.perturb = Some(vcommon::rng::Rng::new(mix(sd, 77 + k)));
                     if let Ok(op) = catch_unwind(AssertUnwindSafe(|| (e.call)(&mut sp))) {
                         if op.words.len() != o0.words.len() {
@@ -109,8 +109,9 @@ fn trace(mon: &mut Monitor, args: &Args) {
                             } else {
                                 let (a, b) = (fval(o0.words[j], o0.kinds[j]), fval(op.words[j], op.kinds[j]));
                                 let d = (a - b).abs();
-                                if d.is_nan() {
-                                    if a.is_nan() != b.is_nan() { flip = true; }
+                                if d.is_nan() || a.is_finite() != b.is_finite() {
+                                    // NaN-ness or overflow changes under the perturbation: a threshold within slack
+                                    if a.is_nan() != b.is_nan() || a.is_finite() != b.is_finite() { flip = true; }
                                 } else if d > noise[j] {
                                     noise[j] = d;
                                 }
@@ -209,6 +210,33 @@ fn read_rec(r: &mut R) -> Option<Rec> {
     Some(Rec { id, seed, step, panicked: false, words, kinds, text, flip, scale, noise })
 }
 
+/// Entries that are one IEEE operation per lane or pure data movement in every back end (no sums of products).
+pub fn lane_exact(full: &str) -> bool {
+    let Some((ty, name)) = full.split_once("::") else { return false };
+    let vecty = ty == "Vec3A" || ty == "Vec4";
+    if name.starts_with("swizzle") || name.starts_with("as_") {
+        return true;
+    }
+    if let Some(body) = name.strip_prefix("op ") {
+        if vecty {
+            return true; // every operator of a vector type is element-wise (== is a discrete outcome of element-wise compares)
+        }
+        let t: Vec<&str> = body.split_whitespace().collect();
+        if t.len() == 1 {
+            return true; // unary minus, indexing
+        }
+        if t.len() == 3 {
+            return match t[1] { "+" | "-" | "==" | "!=" => true, "*" | "/" => t[0] == "f32" || t[2] == "f32", _ => false };
+        }
+        return false;
+    }
+    if vecty {
+        return matches!(name, "new" | "splat" | "select" | "from_array" | "to_array" | "from_slice" | "write_to_slice" | "truncate" | "extend" | "with_x" | "with_y" | "with_z" | "with_w" | "min" | "max" | "clamp" | "min_element" | "max_element" | "min_position" | "max_position" | "cmpeq" | "cmpne" | "cmpge" | "cmpgt" | "cmple" | "cmplt" | "abs" | "signum" | "copysign" | "is_negative_bitmask" | "is_finite" | "is_finite_mask" | "is_nan" | "is_nan_mask" | "div_euclid" | "rem_euclid" | "round" | "floor" | "ceil" | "trunc" | "fract" | "fract_gl" | "exp" | "powf" | "recip" | "mul_add" | "from_vec4" | "to_vec3" | "iter Sum" | "iter Product")
+            || name.starts_with("From<") || name.starts_with("fn ");
+    }
+    matches!(name, "conjugate" | "transpose" | "from_cols" | "from_cols_array" | "from_cols_array_2d" | "from_cols_slice" | "to_cols_array" | "to_cols_array_2d" | "write_cols_to_slice" | "col" | "row" | "from_diagonal" | "from_translation" | "from_scale" | "is_nan" | "is_finite" | "to_array" | "from_array" | "from_xyzw" | "from_vec4" | "from_slice" | "write_to_slice" | "xyz" | "abs" | "add_mat2" | "sub_mat2" | "add_mat3" | "sub_mat3" | "add_mat4" | "sub_mat4" | "mul_scalar" | "div_scalar" | "from_mat2" | "from_mat3" | "from_mat3a" | "from_mat4" | "from_mat3_translation" | "from_mat2_translation")
+}
+
 /// `--mode cmp --trace A B <class>` with class = exact | assoc
 fn compare(mon: &mut Monitor, args: &Args) {
     let a_path = args.trace.clone().expect("--trace A");
@@ -218,7 +246,7 @@ fn compare(mon: &mut Monitor, args: &Args) {
     // canaries: the comparator must notice deliberately corrupted copies of trace B
     let muts: &[(&str, u8)] = if class == "exact" { &[("one result off by 1 ulp (an FMA slipping in)", 1), ("Display text differs for equal values", 4)] } else { &[("a result off by 1e-3 relative", 2), ("a discrete outcome flipped", 3), ("Display text differs for equal values", 4)] };
     for (name, m) in muts {
-        mon.canary(name, |sm| compare_inner(sm, &a_path, &b_path, &class, &pair, *m, 40_000));
+        mon.canary(name, |sm| compare_inner(sm, &a_path, &b_path, &class, &pair, *m, 600_000));
     }
     compare_inner(mon, &a_path, &b_path, &class, &pair, 0, u64::MAX);
 }
@@ -318,6 +346,20 @@ fn compare_inner(mon: &mut Monitor, a_path: &str, b_path: &str, class: &str, pai
                 }
                 break;
             }
+            if x.step == 0 && lane_exact(&name) {
+                // single IEEE operations per lane / pure data movement: no re-association, so no slack at all
+                let same = k != 0 && { let (a, b) = (fval(x.words[j], k), fval(y.words[j], k)); a == b || (a.is_nan() && b.is_nan()) };
+                if same {
+                    continue; // +0 vs -0
+                }
+                c.count("lane-exact entries compared");
+                if c.wants_witness("divergence", &["lane_exact", &name]) {
+                    c.violation("divergence", &["lane_exact", &name], inp(), format!("word {} = {:#x} ({})", j, x.words[j], fval(x.words[j], k.max(32))), format!("{:#x} ({})", y.words[j], fval(y.words[j], k.max(32))), "an element-wise operation / data movement has no re-associated additions: results must be IEEE-equal in every build".into());
+                } else {
+                    c.st.violations += 1;
+                }
+                break;
+            }
             if k == 0 {
                 if x.flip || y.flip {
                     c.boundary();
@@ -340,6 +382,16 @@ fn compare_inner(mon: &mut Monitor, a_path: &str, b_path: &str, class: &str, pai
             // error of the larger quantities it was computed from
             let tol = noise + 32.0 * eps * x.scale.max(y.scale).max(a.abs()).max(b.abs()) + tiny;
             let d = (a - b).abs();
+            // A sum or product of huge operands overflows in one association order and not in the other
+            // ((a + b) + c = inf + -inf = NaN, a + (b + c) = inf; (0 * big) * big = 0, 0 * (big * big) = NaN): when the
+            // call's magnitudes are large enough for an intermediate product to overflow, a non-finite result on
+            // either side is a consequence of re-association, not a divergence.  Lane-exact entries never get here.
+            let overflow_zone = if k == 32 { x.scale.max(y.scale) >= 1e9 } else { x.scale.max(y.scale) >= 1e75 };
+            if overflow_zone && (!a.is_finite() || !b.is_finite()) {
+                c.boundary();
+                c.count("overflow depends on association order");
+                continue;
+            }
             c.ratio_t("difference / re-association bound", d / tol);
             if !(d <= tol) {
                 if x.flip || y.flip {
@@ -366,13 +418,13 @@ pub fn show(args: &Args) {
     let seed: u64 = args.rest[0].parse().unwrap();
     for e in entries() {
         if format!("{}::{}", e.ty, e.name) == f {
-            let mut s = Src::new(seed, Mode::Ordinary);
+            let mut s = Src::for_seed(seed);
             s.keep_log = true;
             let o = (e.call)(&mut s);
             println!("inputs {:?}", s.log);
             println!("output {:?}", o.words.iter().zip(o.kinds.iter()).map(|(w, k)| fval(*w, (*k).max(32))).collect::<Vec<_>>());
             for k in 0..K_PERTURB {
-                let mut sp = Src::new(seed, Mode::Ordinary);
+                let mut sp = Src::for_seed(seed);
                 sp.perturb = Some(vcommon::rng::Rng::new(mix(seed, 77 + k)));
                 let op = (e.call)(&mut sp);
                 println!("probe  {:?}", op.words.iter().zip(op.kinds.iter()).map(|(w, k)| fval(*w, (*k).max(32))).collect::<Vec<_>>());
